@@ -75,7 +75,8 @@ func (e *SeqArrowExpr) Eval(ctx context.Context, local Scope) (_ Value, err erro
 				return nil, WrapContextErr(err, e, local)
 			}
 			if n, is := newChar.(Number); is {
-				if r := rune(n.Float64()); float64(r) == n.Float64() {
+				// A negative result is not a char (and would read back as a hole).
+				if r := rune(n.Float64()); r >= 0 && float64(r) == n.Float64() {
 					runes[at] = r
 					continue
 				}
